@@ -298,6 +298,8 @@ enum Action {
     RegInfix,
     RegPostfix,
     LockCtx(String),
+    /// bind variable `x` to 41 in the named context through a clone of its handle (`Context::set_variable`)
+    SetVar(String),
     /// evaluate a program that invokes this very handler again (bounded recursion, two levels)
     ExecuteSelf,
 }
@@ -516,6 +518,7 @@ fn parse_handler(j: &J) -> Result<HSpec, E> {
                 "register_infix" => Action::RegInfix,
                 "register_postfix" => Action::RegPostfix,
                 "lock_ctx" => Action::LockCtx(req_str(j, "ctx")?.to_string()),
+                "set_var" => Action::SetVar(req_str(j, "ctx")?.to_string()),
                 "execute_self" => Action::ExecuteSelf,
                 _ => return bad(format!("unknown reenter action \"{}\"", a)),
             })
@@ -939,6 +942,13 @@ fn reenter(action: &Action, id: &str) {
                     Err(p) => p.into_inner().len(),
                 };
                 std::hint::black_box(n);
+            }
+            None => panic!("verif-handler-unknown-ctx {}", name),
+        },
+        Action::SetVar(name) => match ctx_lookup(name) {
+            Some(c) => {
+                let mut c = c;
+                c.set_variable("x", Value::from(41));
             }
             None => panic!("verif-handler-unknown-ctx {}", name),
         },
